@@ -362,6 +362,14 @@ def report_once(ctx: Ctx, observed: dict, what: str, detail: Any) -> None:
         ctx.report(observed, what, detail)
 
 
+def pend(ctx: Ctx, what: str, detail: dict) -> None:
+    """a correspondence difference on a case where the property holds: reported at the end of the run,
+    and only if the search found no folded value that differs from CPython"""
+    lst = ctx.__dict__.setdefault("_fold_pending", [])
+    if len(lst) < 3:
+        lst.append((what, detail))
+
+
 def property_check(ctx: Ctx, which: str, kind: str, op: str, operands: list, real_c: str, real_raw: Any,
                    want_c: str, want_exact: str | None = None) -> bool:
     """The property's own oracle on one case.  Returns True when it holds.
@@ -454,12 +462,12 @@ def run_grid(ctx: Ctx) -> None:
         if real_c != mfold and not real_c.startswith("exc:"):
             nd_fold += 1
             ctx.count("disagreements_checked")
-            if holds and nd_fold <= 3:
-                ctx.violation(f"fold correspondence broken: {which} folder gives {real_c}, model {mfold} on {line!r}; "
-                              f"CPython gives {want} (the folded value is not wrong, the model no longer describes the code)",
-                              {"sub": "fold", "broken": f"correspondence Driver/C12Fold `{kind}` vs {which} folder",
-                               "kind": kind, "folder": which, "op": op, "operands_tok": [tok(o) for o in ops],
-                               "folder_result": real_c, "model": mfold, "cpython": want}, found_input=False)
+            if holds:
+                pend(ctx, f"fold correspondence broken: {which} folder gives {real_c}, model {mfold} on {line!r}; "
+                          f"CPython gives {want} (no folded value was seen to be wrong; the model no longer describes the code)",
+                     {"sub": "fold", "broken": f"correspondence Driver/C12Fold `{kind}` vs {which} folder",
+                      "kind": kind, "folder": which, "op": op, "operands_tok": [tok(o) for o in ops],
+                      "folder_result": real_c, "model": mfold, "cpython": want})
     ctx.count("traces_validated_against_impl", len(lines))
     ctx.coverage["fold_grid_cases"] = len(lines)
     ctx.coverage["fold_grid_disagreements"] = nd_fold
@@ -562,12 +570,12 @@ def run_trees(ctx: Ctx) -> None:
         if not float_path and real_c != mfold and not real_c.startswith("exc:"):
             nd += 1
             ctx.count("disagreements_checked")
-            if holds and nd <= 3:
-                ctx.violation(f"fold correspondence broken on an expression tree: {which} constant_fold_expr gives {real_c}, "
-                              f"model {mfold} on {tree_src(t, {})}; CPython gives {want}",
-                              {"sub": "fold", "broken": f"correspondence Driver/C12Fold `E` vs {which} constant_fold_expr",
-                               "kind": "E", "folder": which, "tokens": line, "folder_result": real_c, "model": mfold,
-                               "cpython": want}, found_input=False)
+            if holds:
+                pend(ctx, f"fold correspondence broken on an expression tree: {which} constant_fold_expr gives {real_c}, "
+                          f"model {mfold} on {tree_src(t, {})}; CPython gives {want}",
+                     {"sub": "fold", "broken": f"correspondence Driver/C12Fold `E` vs {which} constant_fold_expr",
+                      "kind": "E", "folder": which, "tokens": line, "folder_result": real_c, "model": mfold,
+                      "cpython": want})
     ctx.count("traces_validated_against_impl", len(lines))
     ctx.coverage["fold_tree_cases"] = len(lines)
     ctx.coverage["fold_tree_disagreements"] = nd
@@ -720,11 +728,11 @@ def run_end_to_end(ctx: Ctx) -> None:
         if not float_path and real_c != mfold:
             nd += 1
             ctx.count("disagreements_checked")
-            if holds and nd <= 3:
-                ctx.violation(f"end-to-end fold correspondence broken: final_value {real_c}, model {mfold} for "
-                              f"`X: Final = {tree_src(t, {})}` (CPython {want})",
-                              {"sub": "fold", "broken": "correspondence Driver/C12Fold `E` vs Var.final_value after a build",
-                               "kind": "E2E", "tokens": lines[i], "folder_result": real_c, "model": mfold}, found_input=False)
+            if holds:
+                pend(ctx, f"end-to-end fold correspondence broken: final_value {real_c}, model {mfold} for "
+                          f"`X: Final = {tree_src(t, {})}` (CPython {want})",
+                     {"sub": "fold", "broken": "correspondence Driver/C12Fold `E` vs Var.final_value after a build",
+                      "kind": "E2E", "tokens": lines[i], "folder_result": real_c, "model": mfold})
     ctx.count("traces_validated_against_impl", len(trees))
     ctx.coverage["fold_e2e_cases"] = len(trees)
     ctx.coverage["fold_e2e_disagreements"] = nd
@@ -746,6 +754,9 @@ def run(ctx: Ctx) -> None:
     run_floats(ctx)
     run_trees(ctx)
     run_end_to_end(ctx)
+    if len(ctx.violations) == before:
+        for what, det in ctx.__dict__.get("_fold_pending", []):
+            ctx.violation(what, det, found_input=False)
     if not proved and len(ctx.violations) == before:
         ctx.violation("Lean development for C12 constant folding no longer builds and no folded value was seen to differ "
                       "from CPython", {"sub": "fold", "broken": ctx.broken_ties}, found_input=False)
